@@ -16,7 +16,7 @@ import ast
 from typing import Dict, List, Optional, Set, Tuple
 
 from ..model import Program, AnalysisError, FuncInfo, ClassInfo, walk_local, dotted
-from ..report import RuleResult
+from ..report import RuleResult, guard
 from ..astutil import src, site, calls_in, call_name, is_self_attr
 from ..callgraph import self_closure
 
@@ -857,4 +857,4 @@ def sql_clause_truth(prog: Program) -> RuleResult:
 
 
 def run(prog: Program, tier: str) -> List[RuleResult]:
-    return [sql_reject(prog), sql_ops(prog), sql_varid(prog), sql_alias(prog), sql_fetch(prog), sql_membership(prog), sql_chain(prog), sql_state(prog), sql_exact_dao(prog), sql_clause_truth(prog)]
+    return [guard(lambda: sql_reject(prog)), guard(lambda: sql_ops(prog)), guard(lambda: sql_varid(prog)), guard(lambda: sql_alias(prog)), guard(lambda: sql_fetch(prog)), guard(lambda: sql_membership(prog)), guard(lambda: sql_chain(prog)), guard(lambda: sql_state(prog)), guard(lambda: sql_exact_dao(prog)), guard(lambda: sql_clause_truth(prog))]
